@@ -37,12 +37,38 @@ def r08_1(ctx):
         fm = [(b, t) for b, t in f.calls() if t["callee"].rsplit("::", 1)[-1] == want and crate in t["callee"]]
         wa = [(b, t) for b, t in f.calls() if callee_is(t, "write_all")]
         ok = len(fm) == 1 and len(wa) == 1
-        # every path to a return goes through that one formatting call (no narrower fast path)
-        if ok:
+        # every path to a return goes through that one formatting call (or a delegation proved lossless below)
+        has_other = any(t["callee"].rsplit("::", 1)[-1] in INT_W + FLT_W for b, t in f.calls())
+        if ok and not has_other:
             ok = not (f.reachable_from(0, avoid={fm[0][0]}) & set(f.return_blocks))
-        other_writers = [t["callee"].rsplit("::", 1)[-1] for b, t in f.calls() if t["callee"].rsplit("::", 1)[-1] in INT_W + FLT_W]
-        if other_writers:
-            ok = False
+        other = [(b, t) for b, t in f.calls() if t["callee"].rsplit("::", 1)[-1] in INT_W + FLT_W]
+        delegated = set()
+        if other:
+            # a narrower sibling may be used where the value provably fits it: the cast feeding the call is value
+            # preserving on that path (interval analysis of the guards)
+            from ..intervals import Intervals, ty_range
+            iv = Intervals(f)
+            for b, t in other:
+                tgt = t["callee"].rsplit("::", 1)[-1].split("_", 1)[1]
+                a = op_local(t["args"][-1])
+                d = f.single_def(a) if a is not None else None
+                fits = False
+                if d and d[0] == "stmt" and d[3]["rv"]["k"] == "cast" and d[3]["rv"].get("ck") == "IntToInt":
+                    for bb, ii, ss in f.assigns():
+                        if ss is d[3]:
+                            v = iv.operand_at_stmt(bb, ii, ss["rv"]["op"])
+                            r = ty_range(tgt)
+                            src_l = op_local(ss["rv"]["op"])
+                            from_value = src_l is not None and f.src(src_l)[0] == "param"
+                            fits = bool(v and r and r[0] <= v[0] and v[1] <= r[1] and from_value)
+                if fits:
+                    delegated.add(b)
+                else:
+                    ok = False
+            if ok and fm:
+                ok = not (f.reachable_from(0, avoid={fm[0][0]} | delegated) & set(f.return_blocks))
+            elif not fm:
+                ok = False
         ty = f.name.split("_", 1)[1]
         if ok:
             # the formatted value is the method's own `value` parameter at its own width
